@@ -65,7 +65,7 @@ Section FullProofs.
   Theorem custom_property_kept name lname value imp :
     prefix "--" name = true -> not_print name = false -> other_expander name = None ->
     remove_whitespace value <> [] ->
-    full_pp [IDecl name lname value imp] = Ok [(underscore name, VRaw (remove_whitespace value), imp)].
+    full_pp [IDecl name lname value imp] = Ok [(style_key name, VRaw (remove_whitespace value), imp)].
   Proof.
     intros Hp Hnp Hoe Hne. apply pp_single.
     unfold pp1. rewrite (resolve_custom name lname Hp Hnp).
@@ -86,7 +86,7 @@ Section FullProofs.
     str_in n ["border"; "border-radius"; "columns"; "flex"] = false -> other_expander n = None ->
     any_var (remove_whitespace value) = true ->
     full_pp [IDecl name lname value imp] =
-    Ok [(underscore n, VPendingProp (remove_whitespace value) n, imp)].
+    Ok [(style_key n, VPendingProp (remove_whitespace value) n, imp)].
   Proof.
     intros Hn Hp Hk Hs H4 Hb Hm Hoe Hv. apply pp_single.
     unfold pp1. rewrite Hn.
@@ -105,7 +105,7 @@ Section FullProofs.
     resolve_name not_print proprietary unstable name lname = Some n ->
     str_in n FOUR_SIDES = true -> any_var (remove_whitespace value) = true ->
     full_pp [IDecl name lname value imp] =
-    Ok (map (fun ln => (underscore ln, VPendingExp (remove_whitespace value) n, imp)) (four_names n)).
+    Ok (map (fun ln => (style_key ln, VPendingExp (remove_whitespace value) n, imp)) (four_names n)).
   Proof.
     intros Hn H4 Hv. apply pp_single. unfold pp1. rewrite Hn.
     destruct (remove_whitespace value) as [|t ts] eqn:E; [discriminate|].
